@@ -145,13 +145,16 @@ func runC12(c *eng.Ctx, tier string) {
 				continue
 			}
 			// installed entry is a fresh non-nil cachedSecret whose Secret was fetched successfully
-			al, isAl := eng.Origin(a.Map.Val).(*ssa.Alloc)
-			if !isAl {
+			// (built in place, or by a constructor helper returning the literal)
+			fields, mapv, isLit := eng.LiteralThroughHelper(a.Map.Val)
+			if !isLit {
 				c.Bad("R-C12-4", a.Fn, a.In.Pos(), eng.InstrStr(a.In), "an installed entry is a fresh non-nil *cachedSecret", "value "+eng.ValStr(a.Map.Val))
 				continue
 			}
-			fields, _, _ := eng.LiteralFields(al)
 			sv := fields["Secret"]
+			if sv != nil {
+				sv = mapv(sv)
+			}
 			okk := false
 			if sv != nil {
 				if call, idx := eng.TupleCall(sv); call != nil && idx == 0 && isStoreClientInvoke(&call.Call) {
